@@ -18,6 +18,7 @@ mod c07;
 #[cfg(feature = "std")]
 mod c13;
 mod linkfmt;
+mod observe;
 
 type CheckFn = fn(&Ctx, &mut Report);
 
@@ -32,6 +33,8 @@ fn table() -> Vec<(&'static str, CheckFn)> {
     t.push(("C07", c07::run));
     #[cfg(feature = "std")]
     t.push(("C13", c13::run));
+    t.push(("C14", observe::run_c14));
+    t.push(("C15", observe::run_c15));
     t.push(("C16", linkfmt::run_c16));
     t.push(("C17", linkfmt::run_c17));
     t.push(("C18", linkfmt::run_c18));
